@@ -389,7 +389,9 @@ def e2e_impl_runner(ctx):
         for case, tline in zip(st.cases, tables + ["crash"] * (len(st.cases) - len(tables))):
             ops = [t for t in case.split(" #F", 1)[1].split(" #O")[0].split(" ") if t]
             args, env = e2e_cli(case)
-            rc1, out1, err1 = E.run(hbin, ["--include-ignored"] + args, env)
+            # --max-time at the runner level: the binary also holds benchmarks with a zero time budget (for C15),
+            # which pass the filters but are never called (bench loop returns at once), in test mode too.
+            rc1, out1, err1 = E.run(hbin, ["--include-ignored", "--max-time", "1000"] + args, env)
             rc2, out2, err2 = E.run(hbin, ["--list", "--format", "terse", "--include-ignored"] + args, dict(env, NEXTEST="1"))
             rc3, out3, err3 = E.run(hbin, ["--list", "--include-ignored"] + args, env)
             if rc1 != 0 or rc2 != 0 or rc3 != 0 or not tline.startswith("#T"):
